@@ -571,8 +571,26 @@ func (ex *exprTr) call(x *ast.CallExpr) Val {
 		return Val{t: vc.bytesOfSlice(ex.st, ex.tr(x.Args[0]).t), typ: rt}
 	case "verif_bytesOfStr":
 		return Val{t: vc.bytesOfString(ex.tr(x.Args[0]).t), typ: rt}
+	case "verif_bempty":
+		vc.bytesOn()
+		return Val{t: bytesEmpty, typ: rt}
 	case "verif_built":
 		vc.bytesOn()
+		// built(b): b a *strings.Builder, or the name of a local strings.Builder variable (its address is meant)
+		if id, ok := x.Args[0].(*ast.Ident); ok {
+			if _, isPtr := ex.typeOf(id).Underlying().(*types.Pointer); !isPtr && isStringsBuilder(ex.typeOf(id)) {
+				for _, b := range vc.fn.Blocks {
+					for _, in := range b.Instrs {
+						if al, ok := in.(*ssa.Alloc); ok && al.Comment == id.Name {
+							if v, ok := vc.vals[al]; ok {
+								return Val{t: app("select", vc.heapGet(ex.st, builderAccHeap, builderAccSort), vc.ptrTerm(v)), typ: rt}
+							}
+						}
+					}
+				}
+				vc.fail("contract: built(%s): no such local builder", id.Name)
+			}
+		}
 		a := ex.tr(x.Args[0])
 		if !isStringsBuilder(a.typ) {
 			vc.fail("contract: built() needs a *strings.Builder")
